@@ -189,6 +189,8 @@ func (e *Exec) callFn(fr *frame, st *State, c *ssa.CallCommon, fn *ssa.Function,
 			*e.modCollect = append(*e.modCollect, &Ptr{Kind: pModMap, Ref: m, Root: sig.Params().At(0).Type(), Type: sig.Params().At(0).Type()})
 		}
 		return &Tuple{}, true
+	case "vcSameSlice":
+		return tEq(e.asTerm(st, args[0], sig.Params().At(0).Type()), e.asTerm(st, args[1], sig.Params().At(1).Type())), true
 	case "vcByteStr":
 		return app(SStr, "sbyte", e.asTerm(st, args[0], types.Typ[types.Uint8])), true
 	case "vcFresh":
@@ -202,6 +204,19 @@ func (e *Exec) callFn(fr *frame, st *State, c *ssa.CallCommon, fn *ssa.Function,
 		}
 		return tAnd(tLt(old.alloc, t), tLe(t, st.alloc)), true
 	}
+	if strings.HasPrefix(name, "ghost_") {
+		return e.ghostLoad(st, fn, args), true
+	}
+	if name == "vcModGhost" {
+		if e.modCollect != nil {
+			if cst, ok := c.Args[0].(*ssa.Const); ok {
+				gname := constantString(cst)
+				ref := e.asTerm(st, args[1], sig.Params().At(1).Type())
+				*e.modCollect = append(*e.modCollect, &Ptr{Kind: pModGhost, Ref: ref, GhostName: gname})
+			}
+		}
+		return &Tuple{}, true
+	}
 	if fn.Parent() != nil && fn.Blocks != nil {
 		// anonymous function: execute inline
 		rs, out := e.runInline(fn, args, bindings, st, nil)
@@ -214,7 +229,10 @@ func (e *Exec) callFn(fr *frame, st *State, c *ssa.CallCommon, fn *ssa.Function,
 	key := fnKey(fn)
 	ct := e.cs.ByKey[key]
 	if isRepoFn(fn) {
-		if strings.HasPrefix(name, "spec_") || (ct != nil && ct.Pure && fn.Blocks != nil && !ct.Opaque) {
+		if ct != nil && ct.Opaque {
+			return e.modularCall(st, ct, fn.Signature, args, where, shortKey(key))
+		}
+		if strings.HasPrefix(name, "spec_") || strings.HasPrefix(name, "Spec_") || strings.HasPrefix(name, "Ghost_") || e.cs.Preds[key] {
 			return e.specCall(fn, args, st, where)
 		}
 		if strings.HasPrefix(name, "vc_") && fn.Blocks != nil {
@@ -246,7 +264,7 @@ func (e *Exec) callFn(fr *frame, st *State, c *ssa.CallCommon, fn *ssa.Function,
 	if ct != nil {
 		return e.modularCall(st, ct, fn.Signature, args, where, key)
 	}
-	if v, ok := e.extBuiltin(st, fn, key, args, where); ok {
+	if v, ok := e.extBuiltinC(st, c, fn, key, args, where); ok {
 		return v, true
 	}
 	if fn.Synthetic != "" && fn.Blocks != nil {
@@ -386,7 +404,31 @@ func (e *Exec) collectMods(st *State, ct *Contract, args []Value) ([]*Ptr, bool)
 }
 
 // havocLoc replaces the contents of a location by a fresh well-typed value.
+// ghostLoad reads ghost state attached to an object: ghost_x(obj) is component G.ghost_x at obj.
+func (e *Exec) ghostLoad(st *State, fn *ssa.Function, args []Value) Value {
+	name := fn.Name()
+	rs := e.ti.sortOf(fn.Signature.Results().At(0).Type())
+	ref := e.asTerm(st, args[0], fn.Signature.Params().At(0).Type())
+	e.ghostSorts[name] = rs
+	arr := e.heapComp(st, "G."+name, SInt, arraySort(SInt, rs))
+	v := tSelect(arr, ref, rs)
+	if e.quant == 0 {
+		e.assume(st, e.wellTyped(st, fn.Signature.Results().At(0).Type(), v))
+	}
+	return v
+}
+
 func (e *Exec) havocLoc(st *State, p *Ptr) {
+	if p.Kind == pModGhost {
+		name := "G." + p.GhostName
+		rs, ok := e.ghostSorts[p.GhostName]
+		if !ok {
+			rs = e.ghostSortOf(p.GhostName)
+		}
+		arr := e.heapComp(st, name, SInt, arraySort(SInt, rs))
+		e.setHeap(st, name, tStore(arr, p.Ref, e.smt.fresh("hv", rs)))
+		return
+	}
 	if p.Kind == pModElems {
 		// all elements of the backing array
 		for _, l := range leaves(p.Root) {
@@ -494,6 +536,16 @@ func (e *Exec) modularCall(st *State, ct *Contract, sig *types.Signature, args [
 		res = e.freshOf(st, "r."+smtIdent(shortName(calleeName)), sig.Results())
 	}
 	rvals := unwrapResults(res, sig.Results().Len())
+	if g := ct.Attrs["result-ghost"]; g != "" && len(rvals) == 1 && len(targs) > 0 {
+		// the (ghost) record of the most recent result, attached to the receiver
+		rt, ok1 := rvals[0].(Term)
+		recv, ok2 := targs[0].(Term)
+		if ok1 && ok2 {
+			e.ghostSorts[g] = rt.Sort
+			arr := e.heapComp(st, "G."+g, SInt, arraySort(SInt, rt.Sort))
+			e.setHeap(st, "G."+g, tStore(arr, recv, rt))
+		}
+	}
 	all := append(append([]Value{}, targs...), rvals...)
 	for _, cl := range ct.Ensures {
 		if cl.GenFn == "" {
